@@ -39,4 +39,25 @@ PROPS = {
         test_clauses=["the real Vocoder yields exactly fperiod samples per frame and is deterministic (bitwise comparison with the one-shot waveform)"],
         assumptions=["abstract vocoder: one frame yields fperiod samples (checked on the real vocoder by the correspondence)"],
     ),
+    "C08": dict(
+        rule="DurationEstimator::new(ps,1).create(s) on generated duration models (1..200 states; means 0.2..60 log-uniform, variances 1e-3..400; "
+             "a tie family with three repeated Gaussians; means on x.5 rounding ties) and on the bundled voice's duration Gaussians for corpus labels; "
+             "speeds log-uniform in [0.1,50], exactly 1, fixed ladder, and speeds making F1/s a rounding tie; each case runs speed 1, s and s2. "
+             "class = (branch taken at speed s: speed1/floor/exact/up/down, size bucket); non-trivial = speed != 1 and total differs from the speed-1 total",
+        theorem_clauses=["speed 1: max(1, round(mean)) per state", "create never panics, greedy loop terminates within |target-sum| steps",
+                         "length and >=1 per state", "total = max(round(F1/s), n)", "total non-increasing in s"],
+        test_clauses=["f64 rounding of F1/s and of the rho-adjusted means (whole vectors compared exactly, pins the greedy choice)"],
+        assumptions=["variances non-zero (the property's range)"],
+    ),
+    "C09": dict(
+        rule="annotations over 1..8 labels x 1..7 states: exhaustive over {none,start,end,both} per label for <=3 labels (thorough 4), random beyond; "
+             "boundaries from scaled model durations incl. zero-length labels, groups that cannot fit, non-monotone ends, rounding ties; both the string "
+             "route (100 ns units, load_from_strings) and Labels::new with frame values; generated and bundled duration models. "
+             "class = (#known ends, #unknown ends (capped 4), tail known/unknown); non-trivial = at least one known and one unknown end",
+        theorem_clauses=["Labels::new gap filling = non-sequential spec", "no label vanishes: one duration >=1 per state (repaired tail)",
+                         "cumulative law per known end; c + round(e-c) = round(e)", "group that cannot fit gets exactly one frame per state",
+                         "pinned-commit defect (trailing labels dropped) as a theorem"],
+        test_clauses=["100 ns -> frame conversion in f64", "exact duration vectors"],
+        assumptions=["times finite, known times >= 0 (the property's quantifier)"],
+    ),
 }
